@@ -44,7 +44,21 @@ func init() {
 		"time.Now":             noop("time.Now / UnixNano yield an arbitrary integer (seed of the random source)"),
 		"(time.Time).UnixNano": noop("time.Now / UnixNano yield an arbitrary integer (seed of the random source)"),
 		"math/rand.NewSource":  noop("math/rand.NewSource / rand.New yield an opaque source of random numbers"),
-		"math/rand.New":        noop("math/rand.NewSource / rand.New yield an opaque source of random numbers"),
+		"math/rand.New": {run: func(x *Exec, st *State, fr *Frame, ce *ast.CallExpr, recv Term, args []Term, k func(*State, []Term)) {
+			x.trust("math/rand.NewSource / rand.New yield an opaque, non-nil source of random numbers")
+			r := x.d.fresh("rand", "Ref")
+			st.assume(tNot(tEq(r, nullRef)))
+			r.Ty = x.info.TypeOf(ce)
+			k(st, []Term{r})
+		}},
+		"(math/rand.Source).Int63": {run: func(x *Exec, st *State, fr *Frame, ce *ast.CallExpr, recv Term, args []Term, k func(*State, []Term)) {
+			x.trust("rand.Source.Int63 returns an arbitrary integer in [0, 2^63) (any value: nothing is assumed about the distribution)")
+			x.nilCheck(st, recv, ce)
+			r := x.d.fresh("int63", "Int")
+			st.assume(tApp("Bool", "<=", tInt(0), r))
+			r.Ty = types.Typ[types.Int64]
+			k(st, []Term{r})
+		}},
 		"fmt.Errorf": {pure: true, run: func(x *Exec, st *State, fr *Frame, ce *ast.CallExpr, recv Term, args []Term, k func(*State, []Term)) {
 			x.trust("fmt.Errorf yields an opaque non-nil error")
 			e := x.d.fresh("errval", x.errSort())
